@@ -7,10 +7,16 @@ R1 marking   decision table of LFRicLoop.gen_mark_halos_clean_dirty over
              clean outer level; set_clean(d) only with
              d = depth - [dirty_outer] (> 0); every vector component gets the
              same calls; all modified fields are covered.
+R3 required    decision table of LFRicHaloExchange.required(): over all
+             abstract (writer state, reader depth entries, annexed setting)
+             the exchange is declared "not required" only when the writer
+             provably cleaned what every reader accesses.
+R4 depth       the depth passed to the exchange is the maximum over every
+             aggregated read entry (PSyIR and string form).
 R2 write-info HaloWriteAccess._compute_from_field: dirty_outer <=> continuous
              field, cell-column loop, halo loop bound; depth from the loop's
              halo depth (doubled for the fine mesh of an inter-grid kernel).
-That every *reader* finds its halo clean (placement of halo exchanges) is NOT
+Where exchanges are placed (which reader depends on which writer) is NOT
 decided.
 """
 import ast
@@ -20,22 +26,25 @@ from sa.index import AnalysisError, loc
 LEVEL = "other"
 MANIFEST = {
     "level": "other",
-    "text": "The code that marks halos clean / dirty after a loop is "
-            "turned into a decision table over the abstract write state "
-            "(maximum-depth flag, literal depth 0/1/2+, dirty outer level, "
-            "vector / scalar field) by evaluating its guards on every "
-            "combination and collecting the emitted calls symbolically; the "
-            "table is compared with 'clean depth = computed depth minus "
-            "one if the outer level holds partial sums'. Exhaustive over "
-            "that finite domain.",
-    "note": "Only the second sentence of the property is decided. That "
-            "every kernel reading a halo finds it clean depends on the "
-            "placement of halo exchanges (data dependences between schedule "
-            "nodes, integer depth arithmetic in LFRicHaloExchange.required) "
-            "over all invokes and transformation histories: a "
-            "model-checking task, not a fact visible in the source's shape.",
-    "technique": "decision-table extraction by guard evaluation over a "
-                 "finite abstract domain",
+    "text": "Three decision procedures of the halo logic are turned into "
+            "decision tables by abstract execution of their bodies over a "
+            "finite domain and compared with a one-sided oracle: (1) the "
+            "code that marks halos clean / dirty after a loop (write state: "
+            "maximum-depth flag, literal depth 0/1/2+, dirty outer level, "
+            "vector / scalar) never records more than 'computed depth minus "
+            "one if the outer level holds partial sums'; (2) "
+            "LFRicHaloExchange.required() answers 'not required' only when "
+            "the writer provably cleaned what every reader accesses (writer "
+            "state x one or two reader-depth entries x annexed setting, "
+            "~10^4 evaluations); (3) the exchanged depth covers every "
+            "aggregated read entry. Tests that are not part of the modelled "
+            "state are explored as free booleans.",
+    "note": "Which reader depends on which writer (the placement of "
+            "exchanges through the schedule's dependence analysis), "
+            "asynchronous exchanges and the run-time is_dirty tests are NOT "
+            "decided.",
+    "technique": "decision-table extraction by abstract execution of the "
+                 "function bodies over a finite abstract domain",
 }
 
 
@@ -353,5 +362,306 @@ def check(idx, run):
               "applies to every write access",
               "the write information is no longer computed for all write "
               "accesses", loc(hmod, hfunc))
+    check_required(idx, run)
+    check_depth_expression(idx, run)
     run.exhaustive = True
-    run.assumptions = ["placement of halo exchanges is not decided"]
+    run.assumptions = ["where halo exchanges are placed (dependence between "
+                       "schedule nodes) is not decided"]
+
+
+# ----------------------------------------------------------------------
+# R3: the decision "is this halo exchange required?"
+class _Obj:
+    def __init__(self, **kw):
+        self.__dict__.update(kw)
+
+    def __repr__(self):
+        return "(" + ", ".join(f"{k}={v}" for k, v in
+                               self.__dict__.items()) + ")"
+
+
+class _Return(Exception):
+    pass
+
+
+def _ev(node, env):
+    if isinstance(node, ast.Constant):
+        return node.value
+    if isinstance(node, ast.Name):
+        if node.id in env:
+            return env[node.id]
+        raise AnalysisError(f"required(): unknown name '{node.id}'")
+    if isinstance(node, ast.Tuple):
+        return tuple(_ev(e, env) for e in node.elts)
+    if isinstance(node, ast.Attribute):
+        txt = ast.unparse(node)
+        if txt.endswith("compute_annexed_dofs") and "Config" in txt:
+            return env["@annexed"]
+        base = _ev(node.value, env)
+        if isinstance(base, _Obj) and node.attr in base.__dict__:
+            return getattr(base, node.attr)
+        raise AnalysisError(f"required(): cannot evaluate '{txt}'")
+    if isinstance(node, ast.Subscript):
+        base = _ev(node.value, env)
+        return base[_ev(node.slice, env)]
+    if isinstance(node, ast.ListComp) and len(node.generators) == 1 and \
+            isinstance(node.generators[0].target, ast.Name):
+        gen = node.generators[0]
+        out = []
+        for item in _ev(gen.iter, env):
+            sub = dict(env)
+            sub[gen.target.id] = item
+            if all(_ev(c, sub) for c in gen.ifs):
+                out.append(_ev(node.elt, sub))
+        return out
+    if isinstance(node, ast.Call):
+        ftxt = ast.unparse(node.func)
+        if ftxt == "len":
+            return len(_ev(node.args[0], env))
+        if ftxt == "str" and len(node.args) == 1:
+            val = _ev(node.args[0], env)
+            return ("expr", id(val)) if isinstance(val, _Obj) else str(val)
+        if ftxt.endswith(".psyir_expression") and not node.args:
+            val = _ev(node.func.value, env)
+            if isinstance(val, _Obj):
+                return ("expr", id(val))
+        if ftxt == "IntrinsicCall.create" and "MAX" in \
+                ast.unparse(node.args[0]):
+            return ("MAX", tuple(_ev(node.args[1], env)))
+        if ftxt.endswith(".join") and len(node.args) == 1:
+            return ("JOIN", tuple(_ev(node.args[0], env)))
+        if ftxt.endswith("_compute_halo_read_depth_info"):
+            return env["@reads"]
+        if ftxt.endswith("_compute_halo_write_info"):
+            return env["@clean"]
+        raise AnalysisError(f"required(): call '{ftxt}' is not modelled")
+    if isinstance(node, ast.BoolOp):
+        if isinstance(node.op, ast.And):
+            val = True
+            for v in node.values:
+                val = _ev(v, env)
+                if not val:
+                    return val
+            return val
+        val = False
+        for v in node.values:
+            val = _ev(v, env)
+            if val:
+                return val
+        return val
+    if isinstance(node, ast.UnaryOp) and isinstance(node.op, ast.Not):
+        return not _ev(node.operand, env)
+    if isinstance(node, ast.BinOp):
+        left, right = _ev(node.left, env), _ev(node.right, env)
+        if isinstance(node.op, ast.Sub):
+            return left - right
+        if isinstance(node.op, ast.Add):
+            if isinstance(left, tuple) or isinstance(right, tuple):
+                # 'max(' + ','.join(list) + ')'
+                parts = [x for x in (left, right) if isinstance(x, tuple)]
+                strs = [x for x in (left, right) if isinstance(x, str)]
+                if len(parts) == 1 and parts[0][0] in ("JOIN", "MAXSTR"):
+                    txt = "".join(strs)
+                    if "max(" in txt or parts[0][0] == "MAXSTR":
+                        return ("MAXSTR", parts[0][1])
+                    return ("JOIN", parts[0][1]) if txt == ")" else \
+                        parts[0]
+            return left + right
+    if isinstance(node, ast.Compare) and len(node.ops) == 1:
+        left, right = _ev(node.left, env), _ev(node.comparators[0], env)
+        op = node.ops[0]
+        table = {ast.Eq: lambda: left == right,
+                 ast.NotEq: lambda: left != right,
+                 ast.Lt: lambda: left < right, ast.LtE: lambda: left <= right,
+                 ast.Gt: lambda: left > right, ast.GtE: lambda: left >= right,
+                 ast.Is: lambda: left is right,
+                 ast.IsNot: lambda: left is not right}
+        if type(op) in table:
+            return table[type(op)]()
+    raise AnalysisError(f"required(): cannot evaluate "
+                        f"'{ast.unparse(node)[:60]}'")
+
+
+def _exec(stmts, env):
+    for st in stmts:
+        if isinstance(st, ast.Expr):
+            continue
+        if isinstance(st, ast.Assign) and isinstance(st.targets[0], ast.Name):
+            env[st.targets[0].id] = _ev(st.value, env)
+        elif isinstance(st, ast.AugAssign) and isinstance(st.target,
+                                                           ast.Name):
+            cur = env[st.target.id]
+            val = _ev(st.value, env)
+            env[st.target.id] = cur - val if isinstance(st.op, ast.Sub) \
+                else cur + val
+        elif isinstance(st, ast.If):
+            _exec(st.body if _ev(st.test, env) else st.orelse, env)
+        elif isinstance(st, ast.For) and isinstance(st.target, ast.Name):
+            for item in _ev(st.iter, env):
+                env[st.target.id] = item
+                _exec(st.body, env)
+        elif isinstance(st, ast.Return):
+            env["@result"] = _ev(st.value, env)
+            raise _Return()
+        else:
+            raise AnalysisError(f"required(): statement "
+                                f"'{ast.unparse(st)[:50]}' is not modelled")
+
+
+def read_entries():
+    """feasible abstract read-depth entries"""
+    out = [_Obj(annexed_only=True, max_depth=False, max_depth_m1=False,
+                var_depth=None, literal_depth=1)]
+    out.append(_Obj(annexed_only=False, max_depth=True, max_depth_m1=False,
+                    var_depth=None, literal_depth=0))
+    out.append(_Obj(annexed_only=False, max_depth=False, max_depth_m1=True,
+                    var_depth=None, literal_depth=0))
+    for var in (None, "extent"):
+        for lit in (0, 1, 2, 3):
+            if var is None and lit == 0:
+                continue
+            out.append(_Obj(annexed_only=False, max_depth=False,
+                            max_depth_m1=False, var_depth=var,
+                            literal_depth=lit))
+    return out
+
+
+def provably_clean(annexed, clean, reads):
+    """may the exchange be dropped?  Only when the writer provably cleaned
+    at least what every reader needs."""
+    if len(reads) == 1 and reads[0].annexed_only and annexed:
+        return True     # annexed DoFs are always computed redundantly
+    if clean is None:
+        return False
+    if all(r.annexed_only for r in reads) and (
+            clean.max_depth or clean.literal_depth >= 1):
+        # a loop into the level-1 halo computes the annexed DoFs completely
+        # (only the outer halo DoFs of that level hold partial sums)
+        return True
+    if clean.max_depth and not clean.dirty_outer:
+        return True
+    if clean.max_depth:
+        # clean to max-1
+        return all(r.max_depth_m1 and not r.var_depth and
+                   not r.literal_depth or r.annexed_only for r in reads)
+    depth = clean.literal_depth - (1 if clean.dirty_outer else 0)
+    if depth <= 0:
+        return False
+    return all(not r.max_depth and not r.max_depth_m1 and not r.var_depth
+               and r.literal_depth <= depth for r in reads)
+
+
+def check_required(idx, run):
+    cls = idx.get_class("psyclone.dynamo0p3.LFRicHaloExchange")
+    func = cls.methods.get("required")
+    if func is None:
+        raise AnalysisError("LFRicHaloExchange.required not found")
+    mod = cls.module
+    cons = "LFRicHaloExchange.required"
+    cleans = [None]
+    for mx, dirty, lit in itertools.product([False, True], [False, True],
+                                            [0, 1, 2, 3]):
+        if mx and lit:
+            continue
+        cleans.append(_Obj(max_depth=mx, dirty_outer=dirty,
+                           literal_depth=lit))
+    entries = read_entries()
+    lists = [[e] for e in entries] + [
+        [a, b] for a in entries for b in entries
+        if not a.annexed_only and not b.annexed_only and a is not b]
+    neval = 0
+    bad = {}
+    for annexed in (False, True):
+        for clean in cleans:
+            for reads in lists:
+                env = {"self": _Obj(), "ignore_hex_dep": False,
+                       "@annexed": annexed, "@clean": clean, "@reads": reads}
+                try:
+                    _exec(func.body, env)
+                except _Return:
+                    pass
+                res = env.get("@result")
+                neval += 1
+                if not (isinstance(res, tuple) and len(res) == 2):
+                    raise AnalysisError("required() did not return a pair")
+                if res[0] is False and not provably_clean(annexed, clean,
+                                                           reads):
+                    kinds = "+".join(sorted({
+                        "annexed" if r.annexed_only else
+                        "max" if r.max_depth else
+                        "max-1" if r.max_depth_m1 else
+                        "variable" if r.var_depth else "literal"
+                        for r in reads}))
+                    if clean is None:
+                        key = f"reader depth {kinds}, writer unknown"
+                    else:
+                        wkind = "max" if clean.max_depth else "literal"
+                        key = f"reader depth {kinds}, writer cleans " \
+                              f"{wkind}" \
+                              f"{'-1' if clean.dirty_outer else ''}"
+                    bad.setdefault(key, (annexed, clean, reads))
+    run.count("required() evaluations", neval)
+    run.floor("required() evaluations", neval, 1000)
+    classes = ["reader depth literal, writer cleans literal",
+               "reader depth max-1, writer cleans literal",
+               "reader depth variable, writer cleans literal",
+               "reader depth max, writer cleans literal"]
+    for key in sorted(set(bad) | set(classes)):
+        wit = bad.get(key)
+        run.check(
+            "C22.R3", wit is None, cons,
+            f"the exchange is only dropped when the halo is provably clean "
+            f"({key})",
+            f"required() answers 'not required' for compute_annexed="
+            f"{wit[0] if wit else ''}, writer state {wit[1] if wit else ''}, "
+            f"reader depths {wit[2] if wit else ''}: the writer did not "
+            f"provably clean what this reader accesses, so the kernel reads "
+            f"a dirty halo", loc(mod, func),
+            sample={"rule": "C22.R3", "class": key, "ok": wit is None})
+
+
+def check_depth_expression(idx, run):
+    """C22.R4: the depth that is exchanged covers every aggregated read
+    entry: one entry -> that entry, several -> the maximum over all."""
+    cls = idx.get_class("psyclone.dynamo0p3.LFRicHaloExchange")
+    entries = read_entries()
+    for mname in ("_psyir_depth_expression", "_compute_halo_depth"):
+        func = cls.methods.get(mname)
+        if func is None:
+            raise AnalysisError(f"LFRicHaloExchange.{mname} not found")
+        bad = None
+        neval = 0
+        lists = [[e] for e in entries] + \
+            [[a, b] for a in entries for b in entries if a is not b] + \
+            [[entries[2], entries[4], entries[7]],
+             [entries[5], entries[2], entries[9]]]
+        for reads in lists:
+            env = {"self": _Obj(), "@annexed": False, "@clean": None,
+                   "@reads": reads}
+            try:
+                _exec(func.body, env)
+            except _Return:
+                pass
+            neval += 1
+            res = env.get("@result")
+            want = {("expr", id(r)) for r in reads}
+            if isinstance(res, tuple) and res and res[0] in ("MAX",
+                                                             "MAXSTR"):
+                got = set(res[1])
+            elif isinstance(res, tuple) and res and res[0] == "expr":
+                got = {res}
+            else:
+                raise AnalysisError(f"{mname}: result {res!r} not "
+                                    f"understood")
+            if not want <= got and bad is None:
+                bad = reads
+        run.check(
+            "C22.R4", bad is None, f"LFRicHaloExchange.{mname}",
+            "the exchanged depth is the maximum over all read entries",
+            f"for the read entries {bad} the generated depth does not "
+            f"cover every entry: a reader needing a fixed depth next to one "
+            f"needing max_halo_depth-1 gets an exchange that is too shallow "
+            f"when the mesh halo is only as deep as the fixed depth",
+            loc(cls.module, func),
+            sample={"rule": "C22.R4", "method": mname, "evaluations": neval,
+                    "ok": bad is None})
